@@ -239,7 +239,20 @@ class LoadFacts:
             if isinstance(n, ast.For) and isinstance(n.target, ast.Name) and loaded(n.iter):
                 self.entry_var = n.target.id
         if self.entry_var is None:
-            raise AnalysisError('chronicle._load no longer iterates over the entries of json.load(<file>) with a for loop')
+            # by role: the loop whose variable is read as a journal entry (X['timing'] / X['status']), wherever the list
+            # of entries comes from (a helper that parses the file, a cache, ...)
+            for n in f.own_nodes():
+                if isinstance(n, ast.For) and isinstance(n.target, ast.Name):
+                    keys = {
+                        x.slice.value
+                        for b in n.body
+                        for x in ast.walk(b)
+                        if isinstance(x, ast.Subscript) and isinstance(x.value, ast.Name) and x.value.id == n.target.id and isinstance(x.slice, ast.Constant)
+                    }
+                    if keys & {'timing', 'status'}:
+                        self.entry_var = n.target.id
+        if self.entry_var is None:
+            raise AnalysisError('chronicle._load no longer iterates over journal entries (no loop variable read as entry[\'timing\'] / entry[\'status\'])')
         self.base = _Scope(prog, f, self.entry_var, {p: p for p in f.params()})
         self.completed = self.base.completed
 
@@ -2284,6 +2297,127 @@ def _rule5(ctx, rep, outcome_param):
             raise AnalysisError(f'only {n_handlers} registered endpoints call chronicle.find (failed, succeeded and df_model/statistics expected)')
 
 
+def _rule_fresh(ctx, rep):
+    """every query parses the journal anew (added after seeded change C18-3: _load cached the parsed journals at module
+    level; find() then handed out the cached dict objects, df_model_statistics rewrites entry['status'] in place, and the
+    rewritten entries no longer matched the status filter of any later query)"""
+    prog, cg = ctx.prog, ctx.cg
+    with rep.rule(
+        'R-C18-7',
+        'the read path of the history (chronicle.find and what it calls inside the module) keeps nothing between calls: no store into module-level or default-argument containers, no global rebinding, no memoising decorator',
+        floor=2,
+        breaks='two queries share one parsed entry object: a caller that edits its result (the statistics view rewrites the status) changes what every later query returns',
+    ) as r:
+        modname = 'dawgie.pl.logger.chronicle'
+        m = prog.module(modname)
+        path = sorted(q for q in cg.reachable([modname + '.find'], kinds={'direct'}) if q.startswith(modname + '.') and q in prog.funcs)
+        if modname + '._load' not in path:
+            raise AnalysisError('chronicle.find no longer reaches chronicle._load')
+        mutable_globals = {n for n, vals in m.globals.items() if any(isinstance(v, (ast.Dict, ast.List, ast.Set, ast.Call, ast.DictComp, ast.ListComp)) for v in vals)}
+        for q in path:
+            f = prog.funcs[q]
+            rep.analysed(f)
+            r.instance()
+            probs = []
+            for d in f.node.decorator_list:
+                probs.append(f'decorator @{norm(d)[:40]}')
+            globs = {n for g in f.own_nodes() if isinstance(g, ast.Global) for n in g.names}
+            defaults = {a.arg for a, dv in zip(reversed(f.node.args.args), reversed(f.node.args.defaults)) if isinstance(dv, (ast.Dict, ast.List, ast.Set, ast.Call))}
+            local_names = {t.id for s_ in f.own_nodes() if isinstance(s_, ast.Assign) for t in s_.targets if isinstance(t, ast.Name)} | set(f.params())
+            for n in f.own_nodes():
+                tg = n.targets if isinstance(n, ast.Assign) else ([n.target] if isinstance(n, (ast.AugAssign, ast.AnnAssign)) else [])
+                for t in tg:
+                    base = t
+                    while isinstance(base, ast.Subscript):
+                        base = base.value
+                    if isinstance(base, ast.Name):
+                        if base.id in globs:
+                            probs.append(f'{norm(n)[:50]} rebinds / writes the global {base.id}')
+                        elif isinstance(t, ast.Subscript) and ((base.id in mutable_globals and base.id not in local_names) or base.id in defaults):
+                            probs.append(f'{norm(n)[:50]} stores into the module-level / default-argument container {base.id}')
+                if isinstance(n, ast.Call) and isinstance(n.func, ast.Attribute) and isinstance(n.func.value, ast.Name) and n.func.attr in ('append', 'extend', 'add', 'update', 'setdefault', 'insert', '__setitem__'):
+                    b = n.func.value.id
+                    if (b in mutable_globals and b not in local_names) or b in defaults or b in globs:
+                        probs.append(f'{norm(n)[:50]} stores into the module-level / default-argument container {b}')
+            r.check(not probs, f'{q}:keeps-nothing', where(f), 'no state that outlives the call', f'{q}: ' + '; '.join(sorted(set(probs))) + ': parsed journal entries are shared between queries')
+
+
+def _rule_opaque(ctx, rep):
+    """the record is written whatever the reply's timing holds (added after seeded change C18-5: complete() read
+    timing['started'] for a log line before chronicle.append; a worker that fails before the task starts replies without
+    that key, complete raised KeyError and the failed run was never journalled)"""
+    prog = ctx.prog
+    f = prog.nfunc('dawgie.pl.schedule.complete')
+    rep.analysed(f)
+    with rep.rule(
+        'R-C18-8',
+        'before chronicle.append is reached, schedule.complete reads no entry of the reply\'s timing mapping by subscript except keys it stored itself: the farm only guarantees "scheduled", every other key depends on how far the worker got',
+        floor=1,
+        breaks='a reply whose timing lacks the key makes complete() raise KeyError before the journal entry is written: that run is never recorded',
+    ) as r:
+        ps = f.params()
+        if 'timing' not in ps:
+            cands = [p for p in ps if 'tim' in p]
+            if not cands:
+                raise AnalysisError('schedule.complete has no timing parameter')
+            tparam = cands[0]
+        else:
+            tparam = 'timing'
+        tn = {tparam}
+        changed = True
+        while changed:
+            changed = False
+            for d in f.own_nodes():
+                if isinstance(d, ast.Assign) and any(isinstance(x, ast.Name) and x.id in tn for x in ast.walk(d.value)):
+                    new = {t.id for t in d.targets if isinstance(t, ast.Name)} - tn
+                    if new:
+                        tn |= new
+                        changed = True
+
+        class Fl(Flow):
+            def __init__(s):
+                super().__init__()
+                s.bad = []
+                s.appended = 0
+
+            def on_stmt(s, node, st):
+                done, keys = st
+                if isinstance(node, ast.Assign):
+                    for t in node.targets:
+                        if isinstance(t, ast.Subscript) and isinstance(t.value, ast.Name) and t.value.id in tn and isinstance(t.slice, ast.Constant):
+                            keys = keys | {t.slice.value}
+                if not done:
+                    for x in ast.walk(node):
+                        if isinstance(x, ast.Subscript) and isinstance(x.ctx, ast.Load) and isinstance(x.value, ast.Name) and x.value.id in tn and isinstance(x.slice, ast.Constant) and x.slice.value not in keys and x.slice.value != 'scheduled':
+                            s.bad.append(x)
+                return ((done, keys),)
+
+            def on_call(s, call, st):
+                done, keys = st
+                if (prog.resolve_in(call.func, f) or '').endswith('chronicle.append'):
+                    s.appended += 1
+                    return ((True, keys),)
+                if not done:
+                    for a in list(call.args) + [k.value for k in call.keywords]:
+                        for x in ast.walk(a):
+                            if isinstance(x, ast.Subscript) and isinstance(x.ctx, ast.Load) and isinstance(x.value, ast.Name) and x.value.id in tn and isinstance(x.slice, ast.Constant) and x.slice.value not in keys and x.slice.value != 'scheduled':
+                                s.bad.append(x)
+                return (st,)
+
+        fl = Fl()
+        fl.run(f.node, (False, frozenset()))
+        if not fl.appended:
+            raise AnalysisError('schedule.complete no longer calls chronicle.append')
+        r.instance()
+        r.check(
+            not fl.bad,
+            f'{f.qname}:timing-opaque-before-record',
+            where(f, fl.bad[0] if fl.bad else None),
+            'no raising read of the reply timing before the journal entry is written',
+            f'{f.qname} reads {norm(fl.bad[0]) if fl.bad else ""} before chronicle.append: a reply without that key (a worker that failed before the task started) raises KeyError and the run is never journalled',
+        )
+
+
 def check(ctx):
     rep = Report(
         PID,
@@ -2318,6 +2452,8 @@ def check(ctx):
     _rule4(ctx, rep, lf, ffl, fnode)
     _rule5(ctx, rep, outcome)
     _rule6(ctx, rep, lf, ffl, fnode, rdir, cursor)
+    _rule_fresh(ctx, rep)
+    _rule_opaque(ctx, rep)
     return rep
 
 
@@ -2360,6 +2496,9 @@ _LOOP_RENAMED = """cur = before.date()
 # Texts marked (fixed) exist only once pending_fixes/C18-1.diff and C18-2.diff are applied; on the unrepaired tree those
 # variants are skipped (anchor text absent).
 VARIANTS = [
+    V('_load memoises parsed journals at module level', 'B', 'pl/logger/chronicle.py', None, 'def _load(after: datetime, before: datetime, journal: str, succeeded: bool):\n    entries = []', '_parsed = {}\n\n\ndef _load(after: datetime, before: datetime, journal: str, succeeded: bool):\n    entries = _parsed.setdefault(journal, [])', 'R-C18-7'),
+    V('complete logs the start time before recording', 'B', 'pl/schedule.py', 'complete', "if target == '__all__':", "log.info('started %s', timing['started'])\n    if target == '__all__':", 'R-C18-8'),
+    V('complete logs the start time tolerantly', 'N', 'pl/schedule.py', 'complete', "if target == '__all__':", "log.info('started %s', timing.get('started'))\n    if target == '__all__':", None),
     # R-C18-1
     V('complete records failures only', 'B', 'pl/schedule.py', 'complete', 'dawgie.pl.logger.chronicle.append(', 'if status == State.failure:\n        dawgie.pl.logger.chronicle.append(', 'R-C18-1'),
     V('complete records twice', 'B', 'pl/schedule.py', 'complete', 'history.append(', 'dawgie.pl.logger.chronicle.append({})\n    history.append(', 'R-C18-1'),
